@@ -347,6 +347,37 @@ func chainCase(prop string, w *vlog.W, a *wargs, id int) {
 			}
 			audit("after continuation")
 		}
+		// ---- a rollback beyond the journal window (or to a higher height) is refused and modifies nothing:
+		// neither the state store nor the chain index, the block file or the chain meta
+		if head := world.R.Height(); head > 13 {
+			if head > maxEver {
+				maxEver = head
+			}
+			targets := []uint64{head + 1 + uint64(rng.Intn(3))}
+			if maxEver > 12 {
+				targets = append(targets, maxEver-11-uint64(rng.Intn(2)))
+			}
+			for _, t := range targets {
+				bs, bc, bm := world.R.DumpState(), world.R.DumpChain(), world.R.L.GetChainMeta()
+				err := world.R.L.Rollback(t)
+				w.Count("obs_refused_rollback_probes", 1)
+				if err == nil {
+					viol("C12", "rollback:not-refused", fmt.Sprintf("Ledger.Rollback(%d) at height %d (highest height ever %d) was accepted", t, head, maxEver))
+					break
+				}
+				am := world.R.L.GetChainMeta()
+				if d := diffDumps(bs, world.R.DumpState(), nil); len(d) > 0 {
+					viol("C12", "rollback:refused-but-modified:state-store", fmt.Sprintf("refused Ledger.Rollback(%d) at height %d (%v) changed state keys %v", t, head, err, d))
+				}
+				if d := diffDumps(bc, world.R.DumpChain(), nil); len(d) > 0 || am.Height != bm.Height || am.BlockHash.String() != bm.BlockHash.String() {
+					viol("C12", "rollback:refused-but-modified:chain", fmt.Sprintf("refused Ledger.Rollback(%d) at height %d (%v) changed the chain store (keys %v) / chain meta (height %d -> %d)", t, head, err, d, bm.Height, am.Height))
+				}
+				if b, err2 := world.R.L.GetBlock(head, true); err2 != nil || b == nil {
+					viol("C12", "rollback:refused-but-modified:block-file", fmt.Sprintf("after the refused Ledger.Rollback(%d) the head block %d is unreadable: %v", t, head, err2))
+				}
+			}
+			shape["refused-rollbacks"] = true
+		}
 		world.R.Close()
 		var sh []string
 		for k := range shape {
